@@ -62,10 +62,12 @@ def classify(mm, event):
                 skey, sinc = e["r"], e["re"] == "INC"
             else:
                 skey, sinc = ([] if e["le"] == "INF" else e["l"]), e["le"] in ("INC", "INF")
+            # the named API treats an INF left endpoint as ("", INCLUSIVE), also when it is the END of a right-to-left cursor
+            lkey, linc = ([], True) if e["le"] == "INF" else (e["l"], e["le"] == "INC")
             if not e["rtl"]:
                 one_point = e["re"] == "INC" and e["r"] == skey
             else:
-                one_point = e["le"] == "INC" and e["l"] == skey
+                one_point = linc and lkey == skey
             if len(steps) == 1 and sinc and steps[0][0] == skey and (e["end"] == "OK" or one_point):
                 return "iscan-nv-empty-when-only-the-inclusive-start-key-was-produced"
         except Exception:
